@@ -28,6 +28,7 @@ type RunResult struct {
 	NonTriv  bool         `json:"nontrivial"`
 	Log      []string     `json:"-"`
 	Blocks   int64        `json:"blocks"`
+	Trail    []string     `json:"-"`
 }
 
 // SplitMix64: VERIF_SEED -> per-run seeds.
@@ -60,6 +61,7 @@ func finalize(prop string, w *World, res *RunResult) {
 	res.Stats = w.St
 	res.Blocks = w.St.Blocks
 	res.Log = w.Log
+	res.Trail = w.Trail
 	if w.Crash != nil {
 		res.Crash = w.Crash
 		res.CrashStr = w.Crash.Error()
